@@ -157,7 +157,8 @@ func WrapDnsResponseCname(msg *dns.Msg, data []byte, domain string) error {
 		d[0] = enc.IntToBase32Char(int(order))
 		d[1] = enc.IntToBase32Char(int(order) >> 4)
 
-		maxLen := GetLongestDataString(domain)
+		// the two order characters are part of the name as well
+		maxLen := GetLongestDataString(domain) - 2
 
 		if len(data) > maxLen {
 			d = append(d, data[0:maxLen]...)
